@@ -382,9 +382,107 @@ Post(rec) == \/ ~WF(rec.fn, rec.args)
                 ELSE OutEq(rec.out, Eval(rec.fn, rec.args))
 
 (* abstract identity of a case: function, class of every argument, kind of difference *)
+ChrStr(b) == CASE b = 32 -> " "
+              [] b = 33 -> "!"
+              [] b = 34 -> "\""
+              [] b = 35 -> "#"
+              [] b = 36 -> "$"
+              [] b = 37 -> "%"
+              [] b = 38 -> "&"
+              [] b = 39 -> "'"
+              [] b = 40 -> "("
+              [] b = 41 -> ")"
+              [] b = 42 -> "*"
+              [] b = 43 -> "+"
+              [] b = 44 -> ","
+              [] b = 45 -> "-"
+              [] b = 46 -> "."
+              [] b = 47 -> "/"
+              [] b = 48 -> "0"
+              [] b = 49 -> "1"
+              [] b = 50 -> "2"
+              [] b = 51 -> "3"
+              [] b = 52 -> "4"
+              [] b = 53 -> "5"
+              [] b = 54 -> "6"
+              [] b = 55 -> "7"
+              [] b = 56 -> "8"
+              [] b = 57 -> "9"
+              [] b = 58 -> ":"
+              [] b = 59 -> ";"
+              [] b = 60 -> "<"
+              [] b = 61 -> "="
+              [] b = 62 -> ">"
+              [] b = 63 -> "?"
+              [] b = 64 -> "@"
+              [] b = 65 -> "A"
+              [] b = 66 -> "B"
+              [] b = 67 -> "C"
+              [] b = 68 -> "D"
+              [] b = 69 -> "E"
+              [] b = 70 -> "F"
+              [] b = 71 -> "G"
+              [] b = 72 -> "H"
+              [] b = 73 -> "I"
+              [] b = 74 -> "J"
+              [] b = 75 -> "K"
+              [] b = 76 -> "L"
+              [] b = 77 -> "M"
+              [] b = 78 -> "N"
+              [] b = 79 -> "O"
+              [] b = 80 -> "P"
+              [] b = 81 -> "Q"
+              [] b = 82 -> "R"
+              [] b = 83 -> "S"
+              [] b = 84 -> "T"
+              [] b = 85 -> "U"
+              [] b = 86 -> "V"
+              [] b = 87 -> "W"
+              [] b = 88 -> "X"
+              [] b = 89 -> "Y"
+              [] b = 90 -> "Z"
+              [] b = 91 -> "["
+              [] b = 92 -> "\\"
+              [] b = 93 -> "]"
+              [] b = 94 -> "^"
+              [] b = 95 -> "_"
+              [] b = 96 -> "`"
+              [] b = 97 -> "a"
+              [] b = 98 -> "b"
+              [] b = 99 -> "c"
+              [] b = 100 -> "d"
+              [] b = 101 -> "e"
+              [] b = 102 -> "f"
+              [] b = 103 -> "g"
+              [] b = 104 -> "h"
+              [] b = 105 -> "i"
+              [] b = 106 -> "j"
+              [] b = 107 -> "k"
+              [] b = 108 -> "l"
+              [] b = 109 -> "m"
+              [] b = 110 -> "n"
+              [] b = 111 -> "o"
+              [] b = 112 -> "p"
+              [] b = 113 -> "q"
+              [] b = 114 -> "r"
+              [] b = 115 -> "s"
+              [] b = 116 -> "t"
+              [] b = 117 -> "u"
+              [] b = 118 -> "v"
+              [] b = 119 -> "w"
+              [] b = 120 -> "x"
+              [] b = 121 -> "y"
+              [] b = 122 -> "z"
+              [] b = 123 -> "{"
+              [] b = 124 -> "|"
+              [] b = 125 -> "}"
+              [] b = 126 -> "~"
+              [] OTHER -> "?"
+RECURSIVE StrOf(_)
+StrOf(bs) == IF bs = <<>> THEN "" ELSE ChrStr(bs[1]) \o StrOf(Tail(bs))
 ArgClass(x) ==
   CASE x.t = "s" -> IF x.v = <<>> THEN "e" ELSE IF IsASCII(x.v) THEN "a" ELSE "u"
-    [] x.t \in IntTypes -> IF IsBig(x) THEN "big" ELSE IF x.v < 0 THEN "neg" ELSE IF x.v = 0 THEN "0" ELSE "pos"
+    [] x.t \in IntTypes -> IF IsBig(x) THEN (IF Len(x.d) >= 17 THEN "huge" ELSE "big") ELSE IF x.v < 0 THEN "neg" ELSE IF x.v = 0 THEN "0" ELSE "pos"
     [] x.t = "b" -> IF x.v THEN "t" ELSE "f"
     [] x.t \in {"ls", "li"} -> IF x.v = <<>> THEN "l0" ELSE IF Len(x.v) = 1 THEN "l1" ELSE "ln"
     [] OTHER -> "?"
@@ -397,5 +495,9 @@ Diff(got, want) ==
     IF bad = {} THEN "rel"
     ELSE LET i == SetMin(bad) IN
       "r" \o ToString(i) \o (IF got.vals[i].t # want.vals[i].t THEN ":type:" \o got.vals[i].t ELSE ":val")
-Key(rec) == rec.fn \o "/" \o ArgClasses(rec.args) \o "/" \o Diff(rec.out, Eval(rec.fn, rec.args))
+(* fmt: the format itself is the class of the first argument *)
+KeyArgs(rec) == IF rec.fn \in {"fmt.Sprintf[i]", "fmt.Sprintf[s]", "fmt.Sprintf[b]"}
+                THEN StrOf(rec.args[1].v) \o "," \o ArgClass(rec.args[2])
+                ELSE ArgClasses(rec.args)
+Key(rec) == rec.fn \o "/" \o KeyArgs(rec) \o "/" \o Diff(rec.out, Eval(rec.fn, rec.args))
 =============================================================================
